@@ -241,6 +241,13 @@ Theorem C05_phuff_refine_prepare_eq : forall xs al, Forall coef16 xs -> 0 <= al 
 Proof. exact refine_prepare_eq. Qed.
 Print Assumptions C05_phuff_refine_prepare_eq.
 
+(* the DC-only shortcut of every IDCT kernel tests ALL AC rows (generated by a row tracker over the OR chain) *)
+Theorem C05_idct_zero_ac_rows :
+  zero_ac_rows_jidctint_sse2 = [1; 2; 3; 4; 5; 6; 7] /\ zero_ac_rows_jidctint_avx2 = [1; 2; 3; 4; 5; 6; 7] /\
+  zero_ac_rows_jidctfst_sse2 = [1; 2; 3; 4; 5; 6; 7] /\ zero_ac_rows_jidctred_sse2_4x4 = [1; 2; 3; 5; 6; 7].
+Proof. exact idct_zero_ac_rows. Qed.
+Print Assumptions C05_idct_zero_ac_rows.
+
 (* non-vacuity *)
 Example C05_rgb_ycc_nonvacuous :
   asm_rgb_ycc jccolor_sse2_consts 255 0 0 = (76, 85, 255) /\ c_rgb_ycc 255 0 0 = (76, 85, 255) /\
